@@ -70,7 +70,7 @@ func ucs2toUTF8(name []uint8) (string, error) {
 		return "", fmt.Errorf("could not decode UCS-2: %v", err)
 	}
 	// Remove null terminator if one exists.
-	if utf8encoding[len(utf8encoding)-1] == 0 {
+	if len(utf8encoding) != 0 && utf8encoding[len(utf8encoding)-1] == 0 {
 		utf8encoding = utf8encoding[:len(utf8encoding)-1]
 	}
 	if err := validateUCS2Codepoints(name, utf8encoding); err != nil {
